@@ -56,7 +56,7 @@ PROPS = {
     ),
     'C09': dict(
         technique='ASan+UBSan run of encoder histories with a shadow-state monitor over frame headers (identity, version, type, consecutive 16-bit counter, resets)',
-        level_text='Exploration: histories of setDeviceId/setStreamId/restart/encode on one encoder, including deterministic histories emitting > 140000 frames (two wraps) and resets placed at counters 65535/0/1, are monitored frame by frame against a shadow state; getSequenceCounter() is compared with the last emitted frame after every call. Histories also contain packets with empty payloads (C09 does not restrict lengths), calls left by an exception, and continue on copies of the encoder while the original stays alive or is destroyed.',
+        level_text='Exploration: histories of setDeviceId/setStreamId/restart/encode on one encoder, including deterministic histories emitting > 140000 frames (two wraps) and resets placed at counters 65535/0/1, are monitored frame by frame against a shadow state; getSequenceCounter() is compared with the last emitted frame after every call. Histories also contain packets with empty payloads (C09 does not restrict lengths), calls left by an exception, and continue on copies of the encoder while the original stays alive or is destroyed. One batch in eight is encoded through an iterator whose dereference runs another encoder to completion (nested encode calls on one thread).',
         level_note='Trusted: shadow model (reset to 0 on set*/restart, +1 mod 65536 per frame). The value reported between a reset and the next frame is unspecified and unchecked.',
         stages=[codec_stage()],
         rule=('cases = encoder histories of {setDeviceId, setStreamId, restart, encode(batch, ctx)}: deterministic ones that emit > 140000 frames on one '
@@ -81,7 +81,7 @@ PROPS = {
 
     'C04': dict(
         technique='ASan+UBSan run of Decoder::decode on wire-model frames; every returned packet compared with an independent big-endian parse (fields, validity class, truncation prefix, zero padding)',
-        level_text='Exploration: frames are laid out by an independent wire model (all payload kinds, consistent / deliberately inconsistent / bus-error payloads, 0..6 messages, every version, message type and payload type byte), decoded on decoders with prior history (open reassemblies on the same endpoint) and each packet is compared field by field with an independent parse; every cut point of the canonical frames and zero paddings of several lengths are enumerated. Validity is demanded only where the statement fixes it (three-valued expectation). One random case in six adds a frame that is well-formed under both the CMP and the TECMP layout (non-zero first byte): the independent CMP parse decides.',
+        level_text='Exploration: frames are laid out by an independent wire model (all payload kinds, consistent / deliberately inconsistent / bus-error payloads, 0..6 messages, every version, message type and payload type byte), decoded on decoders with prior history (open reassemblies on the same endpoint) and each packet is compared field by field with an independent parse; every cut point of the canonical frames and zero paddings of several lengths are enumerated. Validity is demanded only where the statement fixes it (three-valued expectation). One random case in six adds a frame that is well-formed under both the CMP and the TECMP layout (non-zero first byte): the independent CMP parse decides. A fixed set of 150 frames is additionally decoded during static initialisation, inside main() and in an atexit handler; the three answers must agree.',
         level_note='Trusted: wire model offsets (C12 layout table), expectValidity() classification in framegen.h; messages with error-in-payload or payload type 0 and message type 0 validity are outside the oracle.',
         stages=[dict(driver='drv_decode', flavour='asan')],
         rule=('cases = per payload kind x k in {0,1,2,5} messages: whole frame + EVERY cut point + zero paddings {1,15,16,17,64}; sweeps of all versions / message types / payload types; '
@@ -93,7 +93,7 @@ PROPS = {
     ),
     'C05': dict(
         technique='ASan+UBSan run of multi-endpoint interleaved segment streams; per-call delivery oracle computed from the generation script (exactly-once, at the last segment, content by unique ids)',
-        level_text='Exploration: 1..4 endpoint streams of well-formed segmented (2..12 segments, sizes 0..max, unequal) and unsegmented messages with unique content are merged (all 20 merges x 36 starting-counter pairs exhaustively, bursty random merges otherwise), starting counters include 65533..65535, distinctive non-zero trailing bytes follow segments; deterministic extremes: reassembled totals 65519..65535, messages in 300 / 5000 / 65535 segments, 257 / 300 / 700 endpoints mid-message at once, 70 000 / 140 000 foreign frames between two segments, decoder continued on copies of itself; after EVERY decode call the delivered packets must be exactly the messages that complete at that frame, with the first segment\'s header fields. One message in five carries behind every segment a train of well-formed look-alike messages at a stride that matches its segment sizes; a copy of the decoder taken mid-history is fed the same frames next to the original and must deliver the same packets.',
+        level_text='Exploration: 1..4 endpoint streams of well-formed segmented (2..12 segments, sizes 0..max, unequal) and unsegmented messages with unique content are merged (all 20 merges x 36 starting-counter pairs exhaustively, bursty random merges otherwise), starting counters include 65533..65535, distinctive non-zero trailing bytes follow segments; deterministic extremes: reassembled totals 65519..65535, messages in 300 / 5000 / 65535 segments, 257 / 300 / 700 endpoints mid-message at once, 70 000 / 140 000 foreign frames between two segments, decoder continued on copies of itself; after EVERY decode call the delivered packets must be exactly the messages that complete at that frame, with the first segment\'s header fields. One message in five carries behind every segment a train of well-formed look-alike messages at a stride that matches its segment sizes; a copy of the decoder taken mid-history is fed the same frames next to the original and must deliver the same packets. Deterministic histories with one huge last / middle segment followed by trailing bytes such that declared length + trailing bytes pass 65536.',
         level_note='Trusted: generation script bookkeeping; wire model. Reassembled totals > 65535 bytes are outside the domain.',
         stages=[dict(driver='drv_decode', flavour='asan')],
         rule=('cases = interleaved multi-endpoint histories; every decode call is one evaluation. A history is non-trivial iff >= 2 reassemblies were open simultaneously; '
@@ -114,7 +114,7 @@ PROPS = {
     ),
     'C17': dict(
         technique='ASan+UBSan+LeakSanitizer run with an invariant hook on the decoder (pending reassemblies, guarded by ASAM_CMP_VERIF) compared with a reference reassembly model after every decode call',
-        level_text='Exploration with an exhaustive core: after EVERY decode call the hooked list of (device, stream, buffered bytes) must equal the set of endpoints the reference model holds open, with buffered bytes <= received segment bytes; all 59049 words of length 5 over a 9-letter frame alphabet (first/mid/last/unsegmented/invalid/wrong-version/wrong-counter/TECMP/runt) on one endpoint (all words of length 4 over two endpoints in thorough) and seeded random multi-endpoint histories.',
+        level_text='Exploration with an exhaustive core: after EVERY decode call the hooked list of (device, stream, buffered bytes) must equal the set of endpoints the reference model holds open, with buffered bytes <= received segment bytes; all 59049 words of length 5 over a 9-letter frame alphabet (first/mid/last/unsegmented/invalid/wrong-version/wrong-counter/TECMP/runt) on one endpoint (all words of length 4 over two endpoints in thorough) and seeded random multi-endpoint histories. The invalid-message letter takes four forms (error flag, payload type 0, overrunning length, padding-only frame of 1..56 zero bytes); the TECMP letter includes truncated look-alikes (first byte 0, 8..27 bytes) that name the endpoint itself.',
         level_note='Trusted: ref_decoder.h (validated on > 1 M frames, see DESIGN.md 7), the hook (read-only, inline). Restricted to frame shapes on which the reassembly rules are unambiguous.',
         stages=[dict(driver='drv_decode', flavour='asan'),
                 dict(driver='drv_alloc', flavour='plain0')],
@@ -127,7 +127,7 @@ PROPS = {
     ),
     'C18': dict(
         technique='ASan+UBSan metamorphic monitor: one decoder fed the whole history versus fresh decoders fed each endpoint\'s projection, compared packet by packet',
-        level_text='Exploration: histories over 2..5 endpoints from a small id alphabet, dense in segment traffic, with 25% structurally mutated frames, TECMP frames, runts and re-addressed copies sprinkled in; all 20 merges of two 3-frame scripts for 400 script/endpoint-pair combinations are enumerated. For every endpoint the snapshot sequence from the mixed run must equal the run on its projection.',
+        level_text='Exploration: histories over 2..5 endpoints from a small id alphabet, dense in segment traffic, with 25% structurally mutated frames, TECMP frames, runts and re-addressed copies sprinkled in; all 20 merges of two 3-frame scripts for 400 script/endpoint-pair combinations are enumerated. For every endpoint the snapshot sequence from the mixed run must equal the run on its projection. Hostile frames include truncated TECMP look-alikes (first byte 0, 8..27 bytes) that would name a live endpoint if misread as CMP; endpoint sets include pairs whose decimal digit strings coincide.',
         level_note='Trusted: attribution of a frame to an endpoint by its header bytes (independent parse). Needs no reference decision on malformed frames.',
         stages=[dict(driver='drv_decode', flavour='asan')],
         rule=('cases = histories; non-trivial iff >= 2 endpoints had an open reassembly at the same time (a foreign frame arrived in between); distinct = distinct hash of the interleaving incl. mutation kinds.'),
@@ -149,7 +149,7 @@ PROPS = {
     ),
     'C03': dict(
         technique='ASan (vector annotations) + UBSan on validators, constructors and every const accessor, plus an explicit pointer-range oracle on every reported view; three paths (class validator, decoder, message-level validator)',
-        level_text='Exploration: for each typed class, every buffer length 0..header+8 (and larger), every inner length field swept (8-bit fields exhaustively, 16-bit fields on a lattice in quick / exhaustively in thorough) on zero / ones / random backgrounds, every truncation of consistent payloads, and seeded semi-valid random buffers; accepted buffers are copied to an exact-size heap block that is freed before all accessors run; every (pointer, length) view must lie inside [getRawPayload(), +getLength()]. Views reported by a decoded packet are re-checked after the packet was copied, the accessors were called again and the copy was destroyed; buffers above 65535 bytes (and a quarter of the others) are also fed through the decoder as 2..5 segments and every packet returned valid is held to the same view oracle.',
+        level_text='Exploration: for each typed class, every buffer length 0..header+8 (and larger), every inner length field swept (8-bit fields exhaustively, 16-bit fields on a lattice in quick / exhaustively in thorough) on zero / ones / random backgrounds, every truncation of consistent payloads, and seeded semi-valid random buffers; accepted buffers are copied to an exact-size heap block that is freed before all accessors run; every (pointer, length) view must lie inside [getRawPayload(), +getLength()]. Views reported by a decoded packet are re-checked after the packet was copied, the accessors were called again and the copy was destroyed; buffers above 65535 bytes (and a quarter of the others) are also fed through the decoder as 2..5 segments and every packet returned valid is held to the same view oracle. A fixed set of 140 typed payloads is additionally decoded during static initialisation, inside main() and in an atexit handler (after the library\'s function-local statics are gone): the verdicts must agree and every valid packet passes the view oracle each time.',
         level_note='Trusted: ASan and the range oracle in accessors.h. One-directional: rejected buffers are skipped (accept/reject split is reported).',
         stages=[dict(driver='drv_memsafe', flavour='asan'),
                 dict(driver='fuzz_payload', flavour='fuzz', runner='fuzz', tiers=('thorough',), runs=dict(thorough=16000000), max_len=2048)],
@@ -161,7 +161,7 @@ PROPS = {
 
     'C11': dict(
         technique='ASan+UBSan run of every public setter against a shadow bit-image of the object (table of offset/width/mask per field): read-back, all other getters, all other raw bits',
-        level_text='Exploration, exhaustive for small fields: for 20 header/payload classes and 175 fields, every setter is called from default / all-zero / all-ones / random prior states with every in-range value (<= 8 bit exhaustive; <= 16 bit exhaustive in thorough) and in random set/clear sequences; after each call the value must read back, every other getter must equal the extract of the shadow image and no raw bit outside the field may change. Overlapping views (flags word vs single flags, id word, crc word, LIN pid) are judged through the shared shadow word. TECMP::Payload / TECMP::PayloadType type setters and TECMP::LinPayload::setData are part of the tables.',
+        level_text='Exploration, exhaustive for small fields: for 20 header/payload classes and 175 fields, every setter is called from default / all-zero / all-ones / random prior states with every in-range value (<= 8 bit exhaustive; <= 16 bit exhaustive in thorough) and in random set/clear sequences; after each call the value must read back, every other getter must equal the extract of the shadow image and no raw bit outside the field may change. Overlapping views (flags word vs single flags, id word, crc word, LIN pid) are judged through the shared shadow word. TECMP::Payload / TECMP::PayloadType type setters and TECMP::LinPayload::setData are part of the tables. A fixed builder sequence (every CAN / CAN-FD length 0..64, one object of every other class, raw packet headers) is additionally run during static initialisation, inside main() and in an atexit handler; the results must agree.',
         level_note='Trusted: field table in harness/common/fields.h (offset, width, mask written from the protocol layout). Packet / PayloadType have no wire image: a virtual image serialised from their getters is used.',
         stages=[dict(driver='drv_fields', flavour='asan')],
         rule='cases = (class, field, background) with every in-range value written (exhaustive for fields <= 8 bits, for <= 16 bits a 600-value lattice in quick and exhaustive in thorough, boundary + walking bits + 64 random for wider fields, special and random finite values for floats) + random sequences of 8..64 setter calls on one object; every setter call is one evaluation. distinct_nontrivial = distinct (class, field, background in {default, all-zero, all-ones, random}, value class in {0, max, single-bit, other}) tuples.',
@@ -179,7 +179,7 @@ PROPS = {
     ),
     'C13': dict(
         technique='ASan+UBSan run of setData / header-setter sequences per payload class; raw bytes compared with the wire model\'s serialisation of a shadow of the logical content; own validator and decoder must accept',
-        level_text='Exploration with exhaustive length sweeps: CAN / CAN-FD / LIN data lengths 0..255, Ethernet / analog 0..70 + boundaries up to 65529, capture-module strings of every length 0..1000 for each of the four strings, all (first, second) stream-id counts in 0..40 x 0..40, and random sequences of 1..6 setData calls interleaved with header setters. After every setData: bytes equal the independent serialisation of the final content (hence history independent), getters return what was supplied, DLC code, NUL termination and even padding, validator and decoder accept.',
+        level_text='Exploration with exhaustive length sweeps: CAN / CAN-FD / LIN data lengths 0..255, Ethernet / analog 0..70 + boundaries up to 65529, capture-module strings of every length 0..1000 for each of the four strings, all (first, second) stream-id counts in 0..40 x 0..40, and random sequences of 1..6 setData calls interleaved with header setters. After every setData: bytes equal the independent serialisation of the final content (hence history independent), getters return what was supplied, DLC code, NUL termination and even padding, validator and decoder accept. A fixed builder sequence (every CAN / CAN-FD length 0..64, one object of every other class) is additionally run during static initialisation, inside main() and in an atexit handler; the results must agree.',
         level_note='Trusted: wire-model serialisers in wire.h. Header flags used are bus-error free so that "the decoder accepts" is demanded only where the statement demands it.',
         stages=[dict(driver='drv_fields', flavour='asan')],
         rule='cases = builder sequences; every checked setData call is one evaluation; distinct_nontrivial = distinct (class, previous-length relation, parity pattern, DLC-code?/vendor-data?, first call?) tuples combined with the length.',
@@ -198,7 +198,7 @@ PROPS = {
 
     'C15': dict(
         technique='ASan+UBSan run of Decoder::decode and TECMP::Decoder::Decode on wire-model TECMP frames; packets compared with an independent TECMP parse; unsupported / non-fitting messages must yield nothing',
-        level_text='Exploration with exhaustive type sweeps: all 256 message types x 10 data types x 3 bodies, all 65536 data types on a data message, CAN 0..8 / CAN-FD 0..64 / LIN 0..8 data bytes x 0..3 CRC / checksum bytes x inner length byte fits -1/0/+1/+2/+200, bus status 0..40 entries (with incomplete tails, declared length +1 / 0), capture module status cut at every length, plus seeded random frames with arbitrary header fields; through both entry points. Expected packets come from an independent big-endian parse.',
+        level_text='Exploration with exhaustive type sweeps: all 256 message types x 10 data types x 3 bodies, all 65536 data types on a data message, CAN 0..8 / CAN-FD 0..64 / LIN 0..8 data bytes x 0..3 CRC / checksum bytes x inner length byte fits -1/0/+1/+2/+200, bus status 0..40 entries (with incomplete tails, declared length +1 / 0), capture module status cut at every length, plus seeded random frames with arbitrary header fields; through both entry points. Expected packets come from an independent big-endian parse. A fixed set of 60 frames is decoded before main() and again inside a case; a quarter of the random cases run under a global C++ locale with digit grouping and a decimal comma.',
         level_note='Trusted: TECMP layout in wire.h (device id = byte 1 as the library defines its 28-byte header; chassis/silicon temperature offsets corroborated only by the captured frame in the repository tests). Leniencies: class CAN vs CAN-FD not compared; status messages with non-zero data type, data lengths beyond the bus limit and incomplete trailing bus entries run under the weaker oracle "nothing or correct"; bytes beyond 28 + payload length run under the safety oracle only.',
         stages=[dict(driver='drv_tecmp', flavour='asan'),
                 dict(driver='fuzz_tecmp', flavour='fuzz', runner='fuzz', tiers=('thorough',), runs=dict(thorough=16000000), max_len=600)],
@@ -210,7 +210,7 @@ PROPS = {
 
     'C16': dict(
         technique='ASan+UBSan exhaustive depth-first execution of all operation sequences up to a bound on copies of the real Status object, every node compared with a reference latest-message map; plus long random sequences',
-        level_text='Bounded-exhaustive exploration by execution: all sequences of length <= 5 (quick; <= 6 thorough) over the 28 concrete operations {update(cm,d), update(if,d,i), update(data,d), removeDeviceById(d), removeInterfaceById(d,i), clear} on 3 devices x 3 interfaces (ids chosen to collide under 8/16-bit truncation) are executed on copies of the real object and after EVERY operation the full observable state (counts, every lookup incl. absent ids, every stored packet, interface ids) is compared with a per-device/per-interface latest-message map; random sequences of length 200 go beyond the bound. Status payloads repeat (six per kind) while every header attribute, incl. the packet-level interface id and segment type, differs from packet to packet.',
+        level_text='Bounded-exhaustive exploration by execution: all sequences of length <= 5 (quick; <= 6 thorough) over the 28 concrete operations {update(cm,d), update(if,d,i), update(data,d), removeDeviceById(d), removeInterfaceById(d,i), clear} on 3 devices x 3 interfaces (ids chosen to collide under 8/16-bit truncation) are executed on copies of the real object and after EVERY operation the full observable state (counts, every lookup incl. absent ids, every stored packet, interface ids) is compared with a per-device/per-interface latest-message map; random sequences of length 200 go beyond the bound. Status payloads repeat (six per kind) while every header attribute, incl. the packet-level interface id and segment type, differs from packet to packet. One deterministic case feeds interface status payloads of 65535..131108 bytes (the lengths around which a 16-bit length wraps).',
         level_note='Trusted: the 40-line map model in drv_status.cpp; Status is copied at each node with its own copy constructor (a copy that differed from the original would itself be flagged by the comparison). Entry order is unspecified and not compared.',
         stages=[dict(driver='drv_status', flavour='asan')],
         rule='cases = two-operation prefixes (784) whose subtree is explored exhaustively + random sequences; every operation executed is one evaluation (one full state comparison). distinct_nontrivial = distinct (model state hash before, operation) transitions.',
@@ -221,7 +221,7 @@ PROPS = {
 
     'C19': dict(
         technique='ThreadSanitizer (happens-before race detection) on T threads each driving its own Encoder/Decoder/Status and the static TECMP decoder on independent seeded workloads; per-thread digests compared with single-threaded runs; helgrind as second detector in thorough',
-        level_text='Exploration of schedules: 8 (quick) / 16 (thorough) threads start on a barrier and run mixed workloads (encode+decode, reassembly, payload builders, TECMP conversion, status tracker) with sched_yield jitter between library calls; every other round is focused (all threads on one code path: encode+decode, decode, builders, TECMP, status, reassembly of 16..60 KiB messages); every output is folded into a digest that must equal the digest of the same workload run alone beforehand; the ThreadSanitizer log must contain no report block with a library frame (blocks de-duplicated by kind and library functions). An atomic counter records how many threads were inside library code simultaneously. Every fourth round gives each thread copies of one used prototype (Encoder that has sent frames, Decoder mid-reassembly, Status that knows devices) made before the threads start.',
+        level_text='Exploration of schedules: 8 (quick) / 16 (thorough) threads start on a barrier and run mixed workloads (encode+decode, reassembly, payload builders, TECMP conversion, status tracker) with sched_yield jitter between library calls; every other round is focused (all threads on one code path: encode+decode, decode, builders, TECMP, status, reassembly of 16..60 KiB messages); every output is folded into a digest that must equal the digest of the same workload run alone beforehand; the ThreadSanitizer log must contain no report block with a library frame (blocks de-duplicated by kind and library functions). An atomic counter records how many threads were inside library code simultaneously. Every fourth round gives each thread copies of one used prototype (Encoder that has sent frames, Decoder mid-reassembly, Status that knows devices) made before the threads start. One round in sixteen is heavy: every thread holds 700 unfinished 60000-byte messages in its own decoder at the same moment (barrier), then finishes them.',
         level_note='Trusted: ThreadSanitizer (reports unordered conflicting accesses even if they did not collide in time, which is what "no unsynchronised shared state" needs), valgrind helgrind. Sampled schedules, not all schedules.',
         stages=[dict(driver='drv_threads', flavour='tsan', runner='tsan', shards=dict(quick=4, thorough=4)),
                 dict(driver='drv_threads', flavour='plain0', runner='helgrind', tiers=('thorough',), env=dict(VF_THREADS='4', VF_STEPS='60', VF_ROUNDS='3'))],
@@ -233,7 +233,7 @@ PROPS = {
 
     'C20': dict(
         technique='valgrind memcheck definedness client checks on every output byte / getter value of a mixed workload, plus a differential monitor (operator new fill patterns 0xA5 / 0x3C, freed blocks scribbled; -ftrivial-auto-var-init=zero versus =pattern builds) comparing output digests',
-        level_text='Exploration: a seeded mixed workload (encode+decode of every payload kind, padded and unpadded frames, control / vendor / unknown-type messages whose header leaves id bytes unused, aggregated frames with invalid payloads, interleaved reassembly with trailing bytes, payload builders, TECMP conversion incl. LIN, status tracker) runs (1) under memcheck with VALGRIND_CHECK_MEM_IS_DEFINED on every frame byte, packet getter value, payload byte and re-serialised header, and every uninitialised-value error with a library frame taken from the valgrind log; (2) natively with fresh heap blocks filled with two different patterns (digests per case must be equal) in two builds whose uninitialised stack variables are zero / pattern filled (per-shard digest folds must be equal).',
+        level_text='Exploration: a seeded mixed workload (encode+decode of every payload kind, padded and unpadded frames, control / vendor / unknown-type messages whose header leaves id bytes unused, aggregated frames with invalid payloads, interleaved reassembly with trailing bytes, payload builders, TECMP conversion incl. LIN, status tracker) runs (1) under memcheck with VALGRIND_CHECK_MEM_IS_DEFINED on every frame byte, packet getter value, payload byte and re-serialised header, and every uninitialised-value error with a library frame taken from the valgrind log; (2) natively with fresh heap blocks filled with two different patterns (digests per case must be equal) in two builds whose uninitialised stack variables are zero / pattern filled (per-shard digest folds must be equal). A fixed 600-step workload is additionally run during static initialisation and compared with the same run inside main().',
         level_note='Trusted: valgrind memcheck bit-precise definedness tracking (binary built without sanitizers and without auto-var-init for this stage); the replaced operator new/delete in the harness. "All prior heap contents" is modelled by two fill patterns plus the definedness checker.',
         stages=[dict(driver='drv_uninit', flavour='plain', runner='memcheck', shards=dict(quick=16, thorough=16)),
                 dict(driver='drv_uninit', flavour='plain0', fold_feature='case_digest_fold'),
